@@ -132,7 +132,7 @@ if (typeof ns.a == 'undefined') { ns.a = {}; }
 ns.a.t = function(opt_data, opt_sb, opt_ijData) {
   var output = '';
   output += 'it\'s \u003C/script\u003E';
-  var m1 = {""a\""b"":1};
+  var m_1 = {""a\""b"":1};
   output += soy.$$escapeHtml('\u2028\\');
   return output;
 };
